@@ -45,6 +45,26 @@ def wrap_c16(pid, tier, seed):
     return res
 
 
+def plain_release(pid, tier, seed):
+    """The property's own workload (every 8th case of every stratum) against the crate built the way a plain
+    `cargo build --release` builds it: overflow checks and debug assertions off. Code inside debug_assert!(..) and
+    behind cfg(debug_assertions) exists only in one of the two profiles."""
+    binp = build_wrap()
+    if binp is None:
+        return {"inconclusive": ["plain release build (overflow-checks off, debug-assertions off) failed"]}
+    reports, problems = run_shards(binp, pid, tier, seed, tag="plain", extra_args=["--cases-div", "8"])
+    merged = merge_reports(reports)
+    for v in merged["violations"]:
+        v["phase"] = "plain_release"
+        v["detail"] = "[crate built with overflow-checks=off, debug-assertions=off] " + v.get("detail", "")
+        v["sig"] = "plain-release:" + v["sig"]
+    res = _prefixed(merged, "plain-release-build")
+    res["inconclusive"] = list(res["inconclusive"]) + [p["why"] for p in problems]
+    res["coverage"] = {"build": "release, overflow-checks=off, debug-assertions=off, --cfg elf_verif_hooks", "shards": len(reports),
+                       "cases": f"every 8th case of the {tier} tier", "evaluations": merged["evaluations"]}
+    return res
+
+
 # --------------------------------------------------------------------------- C06
 def declared_features():
     feats = []
@@ -94,13 +114,27 @@ def features_c06(pid, tier, seed):
             cmd += ["--features", ",".join(s)]
         return s, _cargo(cmd)
 
-    def nostd_check(s):
+    # the no-std subsets are type-checked against a restricted sysroot for a 64-bit bare-metal target and for 32-bit
+    # little- and big-endian targets (cfg(target_pointer_width) / cfg(target_endian) code is part of the configuration space)
+    nostd_targets = ["x86_64-unknown-none", "i686-unknown-linux-gnu", "mips-unknown-linux-gnu"]
+
+    def nostd_check(st):
+        s, target = st
         std_parts = "core,alloc" if "alloc" in s else "core"
-        cmd = ["cargo", "+nightly", "check", "-Zbuild-std=" + std_parts, "--target", "x86_64-unknown-none", "--no-default-features", "--lib",
-               "--target-dir", os.path.join(TARGET, "nostd-" + ("_".join(s) or "none"))]
+        cmd = ["cargo", "+nightly", "check", "-Zbuild-std=" + std_parts, "--target", target, "--no-default-features", "--lib",
+               "--target-dir", os.path.join(TARGET, "nostd-" + ("_".join(s) or "none") + "-" + target.split("-")[0])]
         if s:
             cmd += ["--features", ",".join(s)]
-        return s, std_parts, _cargo(cmd, {"CARGO_NET_OFFLINE": "true"})
+        return s, std_parts, target, _cargo(cmd, {"CARGO_NET_OFFLINE": "true"})
+
+    def std32_check(s):
+        # subsets with std on a 32-bit target (thorough tier)
+        target = "i686-unknown-linux-gnu"
+        cmd = ["cargo", "+nightly", "check", "-Zbuild-std=std", "--target", target, "--no-default-features", "--lib",
+               "--target-dir", os.path.join(TARGET, "std32-" + ("_".join(s) or "none"))]
+        if s:
+            cmd += ["--features", ",".join(s)]
+        return s, "std", target, _cargo(cmd, {"CARGO_NET_OFFLINE": "true"})
 
     def harness_build(s):
         hf = ["elf_" + f for f in s]
@@ -109,7 +143,9 @@ def features_c06(pid, tier, seed):
 
     with ThreadPoolExecutor(max_workers=8) as ex:
         host = list(ex.map(host_check, subsets))
-        nostd = list(ex.map(nostd_check, [s for s in subsets if "std" not in s]))
+        nostd = list(ex.map(nostd_check, [(s, t) for s in subsets if "std" not in s for t in nostd_targets]))
+        if tier != "quick":
+            nostd += list(ex.map(std32_check, [s for s in subsets if "std" in s]))
         builds = list(ex.map(harness_build, [s for s in subsets if set(s) != set(feats)]))
 
     for s, (rc, err) in host:
@@ -121,18 +157,18 @@ def features_c06(pid, tier, seed):
             res["violations"].append({"sig": f"config:{name}:does-not-compile", "phase": "features_c06",
                                       "detail": f"the crate does not compile with features [{name}] (default features off): {err[-1200:]}",
                                       "stratum": "feature-subsets", "case": 0, "input_hex": ""})
-    for s, parts, (rc, err) in nostd:
+    for s, parts, target, (rc, err) in nostd:
         name = "+".join(s) or "(none)"
-        cov["nostd_targets"].append({"features": name, "sysroot": parts, "target": "x86_64-unknown-none", "check": "ok" if rc == 0 else "FAILED"})
+        cov["nostd_targets"].append({"features": name, "sysroot": parts, "target": target, "check": "ok" if rc == 0 else "FAILED"})
         res["evaluations"] += 1
         res["counters"]["config:nostd-sysroot-checks"] = res["counters"].get("config:nostd-sysroot-checks", 0) + 1
         if rc != 0:
             if "can't find crate" in err or "unresolved import" in err or "cannot find" in err or "failed to resolve" in err or "error[E" in err:
                 res["violations"].append({"sig": f"config:{name}:needs-more-than-{parts}", "phase": "features_c06",
-                                          "detail": f"with features [{name}] the crate does not build against a sysroot containing only {parts} (x86_64-unknown-none): {err[-1200:]}",
+                                          "detail": f"with features [{name}] the crate does not build against a sysroot containing only {parts} ({target}): {err[-1200:]}",
                                           "stratum": "feature-subsets", "case": 0, "input_hex": ""})
             else:
-                res["inconclusive"].append(f"no-std check for [{name}] could not run: {err[-400:]}")
+                res["inconclusive"].append(f"restricted-sysroot check for [{name}] on {target} could not run: {err[-400:]}")
     # the allocation walker in every other feature subset
     for s, binp in builds:
         name = "+".join(s) or "(none)"
@@ -153,6 +189,82 @@ def features_c06(pid, tier, seed):
                 c["walker_calls"] = m["counters"].get("walker-calls-under-monitor", 0)
     res["coverage"] = cov
     res["samples"] = [f"[config] features {c['features']}: host check {c['host_check']}, walker windows {c.get('walker_armed_windows', 'main run')}" for c in cov["subsets"]]
+    return res
+
+
+def feature_closures():
+    """feature -> set of features it switches on (from [features] in /repo/Cargo.toml)"""
+    table = {}
+    in_features = False
+    for line in open(os.path.join(REPO, "Cargo.toml")):
+        s = line.strip()
+        if s.startswith("["):
+            in_features = s == "[features]"
+            continue
+        if in_features and "=" in s and not s.startswith("#"):
+            name, rhs = s.split("=", 1)
+            table[name.strip()] = [x.strip().strip('"') for x in rhs.strip().strip("[]").split(",") if x.strip()]
+    def close(fs):
+        out = set()
+        todo = list(fs)
+        while todo:
+            x = todo.pop()
+            if x in out or x not in table:
+                continue
+            out.add(x)
+            todo.extend(table[x])
+        return out
+    return table, close
+
+
+def feature_configs(pid, tier, seed):
+    """The property's own workload (every 8th case of every stratum) against the crate built in each *other*
+    effective feature configuration: code behind cfg(feature = ..) / cfg(not(feature = ..)) is not compiled into
+    the default build at all, so no input can reach it there."""
+    feats = declared_features()
+    table, close = feature_closures()
+    full = close(table.get("default", feats))
+    seen = {frozenset(full)}
+    configs = []
+    for r in range(len(feats) + 1):
+        for c in itertools.combinations(feats, r):
+            eff = frozenset(close(c))
+            if eff not in seen:
+                seen.add(eff)
+                configs.append(sorted(eff))
+    res = {"violations": [], "inconclusive": [], "counters": {}, "samples": [], "evaluations": 0, "digests": set(), "maxes": {}}
+    cov = {"configurations": []}
+    div = 8
+
+    def build(s):
+        return s, cargo_build("feat-" + ("_".join(s) or "none"), FLAGS_CHECKED, features=["elf_" + x for x in s])
+
+    with ThreadPoolExecutor(max_workers=8) as ex:
+        builds = list(ex.map(build, configs))
+    for s, binp in builds:
+        name = "+".join(s) or "(none)"
+        if binp is None:
+            res["inconclusive"].append(f"harness build for feature configuration [{name}] failed")
+            continue
+        listing = subprocess.run([binp, "list"], capture_output=True, text=True).stdout
+        if not any(l.startswith(pid + " ") for l in listing.splitlines()):
+            cov["configurations"].append({"features": name, "run": "not applicable: this property's workload needs features the configuration lacks"})
+            continue
+        reports, problems = run_shards(binp, pid, tier, seed, tag="cfg-" + ("_".join(s) or "none"), extra_args=["--cases-div", str(div)])
+        m = merge_reports(reports)
+        for v in m["violations"]:
+            v = dict(v)
+            v["phase"] = "feature_configs"
+            v["detail"] = f"[crate built with --no-default-features --features '{','.join(s)}'] " + v.get("detail", "")
+            v["sig"] = f"cfg[{name}]:" + v["sig"]
+            res["violations"].append(v)
+        res["inconclusive"].extend(m["inconclusive"] + [p["why"] for p in problems])
+        res["evaluations"] += m["evaluations"]
+        res["digests"] |= m["digests"]
+        res["counters"][f"config[{name}]:evaluations"] = m["evaluations"]
+        cov["configurations"].append({"features": name, "run": f"every {div}th case of the {tier} tier", "evaluations": m["evaluations"], "shards": len(reports)})
+    res["coverage"] = cov
+    res["samples"] = [f"[feature_configs] {c['features']}: {c['run']}" + (f", {c['evaluations']} evaluations" if "evaluations" in c else "") for c in cov["configurations"]]
     return res
 
 
